@@ -1,5 +1,6 @@
 """C10 - no datagram exceeds the MTU; accepted MTUs are safe (core part)."""
 import kcp_common as K
+import udp_common as U
 import vcheck as V
 
 META = {
@@ -33,5 +34,6 @@ def run(ctx):
     ctx.coverage["trusted_base"] = core_cov.get("trusted_base", []) + [t for t in sess_cov.get("trusted_base", []) if t.startswith("Print Assumptions")]
     ctx.coverage.setdefault("theorems", {}).update(sess_cov.get("theorems", {}))
     V.merge_report(ctx, rep, summ)
+    U.run_parts(ctx, ["tx"])
     ctx.coverage["rule"] = ("two-endpoint lossy histories with SetMtu(0,24,25,26,50,100,576,600,1400,1500,1501,1524,2000,-1,65561) on 2-12 % of ticks and writes of 1..256*mss bytes; "
                             "non-trivial = an MTU change was accepted during the history")
